@@ -262,12 +262,59 @@ func linkPieces(f func([]byte)) {
 								}
 							}
 							doc := h + w1 + d + w2 + t + w3 + end
-							f([]byte(doc))
-							f([]byte("> " + strings.ReplaceAll(strings.TrimSuffix(doc, "\n"), "\n", "\n> ") + "\n"))
-							f([]byte("- " + strings.ReplaceAll(strings.TrimSuffix(doc, "\n"), "\n", "\n  ") + "\n"))
+							inContainers(doc, f)
 						}
 					}
 				}
+			}
+		}
+	}
+}
+
+// inContainers yields doc alone, in a block quote, in a list item continued with spaces and in one continued with a tab.
+func inContainers(doc string, f func([]byte)) {
+	f([]byte(doc))
+	body := strings.TrimSuffix(doc, "\n")
+	f([]byte("> " + strings.ReplaceAll(body, "\n", "\n> ") + "\n"))
+	f([]byte("- " + strings.ReplaceAll(body, "\n", "\n  ") + "\n"))
+	if strings.Contains(body, "\n") {
+		f([]byte("- " + strings.ReplaceAll(body, "\n", "\n\t") + "\n"))
+		f([]byte("1. > " + strings.ReplaceAll(body, "\n", "\n   > ") + "\n"))
+	}
+}
+
+// multiLineRefs yields full, collapsed and shortcut references (links and images) whose label or text spans lines,
+// with a matching definition, in every container.
+func multiLineRefs(f func([]byte)) {
+	labels := []string{"foo\nbar", "foo \n bar", "foo\nbar\nbaz", "foo bar"}
+	for _, l := range labels {
+		def := "[foo bar]: /u 't'\n"
+		if strings.Count(l, "\n") == 2 {
+			def = "[foo bar baz]: /u\n"
+		}
+		for _, use := range []string{"[x][" + l + "] y", "![x][" + l + "] y", "[" + l + "][] y", "[" + l + "] y", "![" + l + "] y", "[x\nz][" + l + "]"} {
+			inContainers(def+"\n"+use+"\n", f)
+			inContainers(use+"\n\n"+def, f)
+			inContainers(def+use+"\n", f)
+		}
+	}
+}
+
+// unicodeSpaceEdges yields constructs in which an ASCII space is syntactically significant, with that space replaced by
+// other white space (form feed, vertical tab, NBSP, EM SPACE, IDEOGRAPHIC SPACE, NEL): CommonMark's rules know only
+// space, tab and line endings, Unicode-aware library helpers know more.
+func unicodeSpaceEdges(f func([]byte)) {
+	bases := []string{"``` go\nx\n```\n", "```\nx\n``` \n", "# h #\n", "- a\n", "1. a\n", "[a]: /u 't'\n\n[a]\n", "x [a](/u \"t\") y\n", "> q\n", "* * *\n",
+		"<a href=\"x\">\n\ny\n", "x <b c=\"d\"> y\n", "a  \nb\n", "    code\n", "[a b][A  B]\n\n[a b]: /u\n", "*a *b\n", "a * b*\n", "~~~ \nx\n~~~\n"}
+	reps := []string{"\f", "\v", "\u00a0", "\u2003", "\u3000", "\u0085"}
+	for _, b := range bases {
+		for i := 0; i < len(b); i++ {
+			if b[i] != ' ' {
+				continue
+			}
+			for _, r := range reps {
+				f([]byte(b[:i] + r + b[i+1:]))
+				f([]byte(b[:i] + " " + r + b[i+1:]))
 			}
 		}
 	}
@@ -396,11 +443,8 @@ func rawPieces(f func([]byte)) {
 				continue
 			}
 			doc := "x " + r[:i] + "\n" + r[i+1:] + " y\n"
-			f([]byte(doc))
-			body := strings.TrimSuffix(doc, "\n")
-			f([]byte("> " + strings.ReplaceAll(body, "\n", "\n> ") + "\n"))
-			f([]byte("1. " + strings.ReplaceAll(body, "\n", "\n   ") + "\n"))
-			f([]byte("- > " + strings.ReplaceAll(body, "\n", "\n  > ") + "\n"))
+			inContainers(doc, f)
+			f([]byte("- > " + strings.ReplaceAll(strings.TrimSuffix(doc, "\n"), "\n", "\n  > ") + "\n"))
 		}
 	}
 }
@@ -413,6 +457,8 @@ func (s *inputSource) structured(thorough bool, f func([]byte)) {
 	uriDestinations(f)
 	tagPairs(f)
 	rawPieces(f)
+	multiLineRefs(f)
+	unicodeSpaceEdges(f)
 	bigTrees(f)
 	nulInjected(f)
 	s.lineProducts(map[bool]int{false: 4000, true: 120000}[thorough], func(d []byte) {
